@@ -138,7 +138,7 @@ func (r *Run) Bin(name string) string {
 // it; the drivers and the end-to-end tiers keep working.
 var workerOf = map[string]string{
 	"server": "server", "c03api": "c03", "c04api": "c04", "c05": "mapr", "c11": "mapr", "c11conc": "mapr", "c06merge": "mapr", "c06agg": "mapr",
-	"c08api": "c08", "c10handler": "c10", "c16pure": "c16", "c16handler": "c16", "c16table": "c16", "c18api": "c18",
+	"c08api": "c08", "c10handler": "c10", "c16pure": "c16", "c16conc": "c16", "c16handler": "c16", "c16table": "c16", "c18api": "c18",
 }
 
 // WorkerBin returns the binary for a child mode and whether it exists.
